@@ -23,7 +23,8 @@ META = {
         'string is the prefix/cascade agreement with capture markers (shared with C02).  Also (D1) every rebinding of the document text in parser.parse is the decode or a framing step (no normalisation/replace of the whole text), escape decoding is one left-to-right pass (no whole-text pre-pass), and (D2) JSON text payloads reach their constructors verbatim.  Not decided: counting '
         'grids/rows/cells of an executed round trip.'
         ' Also: the empty display string of a reference is a display string -- Ref.__init__ (decision table of has_value), the hs_ref action (presence by token count) and the JSON reference branch (presence by `is not None`; the display group of REF_RE has minimum width 0).'
-        ' Also (D1): the escaping substitution has no replacement count.  (D2) no value text is part of a %-format template.'),
+        ' Also (D1): the escaping substitution has no replacement count.  (D2) no value text is part of a %-format template.'
+        ' Also (D1): str.translate tables are modelled as an escaping phase.  (D2) greedy group splits in the decode cascade.'),
     'rule_text': 'obligations = code-point classes x {accepted, contained, decoded} for strings and URIs, whole-token '
                  'inclusions, text-carrying positions x routing, JSON text kinds x cascade/capture',
     'trusted_base': ['re.sub with a single-character class and str.replace with a single-character key are character '
@@ -54,5 +55,6 @@ def run(ctx):
             if kind in _zinc.kinds_for(version):
                 c02._kind(ctx, entries, kind, version, rule='C08.D2', rule3='C08.D2', rule5='C08.D2')
     J.verbatim_payload(ctx, 'C08.D2', entries, fn)
+    J.greedy_group_splits(ctx, 'C08.D2', entries)
     J.parse_scalar_entry(ctx, 'C08.D2')
     c06._shape(ctx)
